@@ -41,7 +41,9 @@ func (k Keeper) HandleTimeoutOrder(ctx sdk.Context, orderId uint64) {
 			timeoutShards = append(timeoutShards, shard)
 			timeoutCount++
 		}
-		if shard.Status == ordertypes.ShardCompleted {
+		if shard.Status == ordertypes.ShardCompleted || shard.Status == ordertypes.ShardMigrating {
+			// a migrating shard is a hand-over in progress, not a stalled store task:
+			// it stays with the order (renewal orders may list it as well)
 			completedShards = append(completedShards, id)
 		} else {
 			uncompletedShards = append(uncompletedShards, id)
